@@ -14,12 +14,12 @@ package reorgdetector
 //@ ghost var lastDropTo int
 //@ ghost var dropCalls int
 
-//@ func (rd *ReorgDetector) notifySubscriber
+//@ func (rd *ReorgDetector) notifySubscriber (rd, id, startingBlock)
 //@   trusted
 //@   modifies notifyCalls, lastNotified
 //@   ensures notifyCalls == old(notifyCalls) + 1 && lastNotified == startingBlock.Num
 
-//@ func (rd *ReorgDetector) removeTrackedBlockRange
+//@ func (rd *ReorgDetector) removeTrackedBlockRange (rd, id, fromBlock, toBlock)
 //@   props C06
 //@   trusted
 //@   sqltext "DELETE FROM tracked_block WHERE num >= $1 AND num <= $2 AND subscriber_id = $3;"
@@ -27,11 +27,11 @@ package reorgdetector
 //@   modifies lastDropFrom, lastDropTo, dropCalls
 //@   ensures dropCalls == old(dropCalls) + 1 && lastDropFrom == fromBlock && lastDropTo == toBlock
 
-//@ func (rd *ReorgDetector) insertReorgEvent
+//@ func (rd *ReorgDetector) insertReorgEvent (rd, event)
 //@   trusted
 //@   modifies nothing
 
-//@ func (hl *headersList) getSorted
+//@ func (hl *headersList) getSorted (hl)
 //@   trusted
 //@   modifies nothing
 //@   ensures forall(k, 0, len(result) - 1, result[k].Num < result[k+1].Num)
@@ -39,7 +39,7 @@ package reorgdetector
 //@   ensures forall(k, 0, len(result), result[k].Num < 9223372036854775808)
 
 // dropping a range from the in-memory list: exactly the numbers from..to go, every other entry stays as it was
-//@ func (hl *headersList) removeRange
+//@ func (hl *headersList) removeRange (hl, from, to)
 //@   props C06
 //@   requires hl != nil && to < 18446744073709551615
 //@   modifies region("map[uint64]reorgdetector.header.has")
@@ -60,7 +60,7 @@ package reorgdetector
 //@   modifies nothing
 //@   ensures result1 != nil ==> result0 == nil
 //@   ensures result1 == nil ==> result0 != nil && result0 == chainHdrAt(bigval(number))
-//@ func (rd *ReorgDetector) detectReorgInTrackedList$1
+//@ func (rd *ReorgDetector) detectReorgInTrackedList$1 ()
 //@   props C06
 //@   requires rd != nil && rd.client != nil && rd.log != nil && hdrs != nil && lastFinalisedBlock != nil && lastFinalisedBlock.Number != nil && 0 <= bigval(lastFinalisedBlock.Number) && bigval(lastFinalisedBlock.Number) < 18446744073709551616
 //@   requires notifyCalls == 0 && headersCache != nil
@@ -95,7 +95,7 @@ package reorgdetector
 //@   ensures result == nil ==> len(*cast(dst, *[]*headerWithSubscriberID)) == trkN && off(*cast(dst, *[]*headerWithSubscriberID)) == 0 && forall(k, 0, trkN, (*cast(dst, *[]*headerWithSubscriberID))[k] == trkRows[k] && trkRows[k] != nil)
 //@   ensures result == nil ==> forall(k, 1, trkN, forall(j, 0, k, trkRows[j].SubscriberID == trkRows[k].SubscriberID ==> trkRows[k - 1].SubscriberID == trkRows[k].SubscriberID))
 //@   ensures (result != nil && isErr(result, db.ErrNotFound)) ==> trkN == 0
-//@ func (rd *ReorgDetector) getTrackedBlocks
+//@ func (rd *ReorgDetector) getTrackedBlocks (rd)
 //@   props C06
 //@   requires rd != nil
 //@   modifies nothing
@@ -114,7 +114,7 @@ package reorgdetector
 // abandoned; at start-up they are reloaded (Start -> loadTrackedHeaders, which also re-creates the subscriptions) before
 // the syncers subscribe again. Subscribing under an id that already has a subscription must therefore hand back that
 // subscription and leave the id's tracked-block list alone; only a new id starts with a new, empty list.
-//@ func newHeadersList
+//@ func newHeadersList (headers)
 //@   props C06
 //@   modifies nothing
 //@   ensures[a-new-list] result != nil && fresh(result) && result.headers != nil && fresh(result.headers)
@@ -126,7 +126,7 @@ package reorgdetector
 //@   loop 0 invariant forall(n, int, has(headersMap, n) == exists(k, 0, rangeindex + 1, headers[k].Num == n))
 //@   loop 0 invariant forall(k, 0, rangeindex + 1, has(headersMap, headers[k].Num))
 //@   loop 0 invariant forall(k, 0, rangeindex + 1, forall(j, k + 1, rangeindex + 1, headers[j].Num != headers[k].Num) ==> headersMap[headers[k].Num] == headers[k])
-//@ func (rd *ReorgDetector) Subscribe
+//@ func (rd *ReorgDetector) Subscribe (rd, id)
 //@   props C06
 //@   requires rd != nil && rd.subscriptions != nil && rd.trackedBlocks != nil
 //@   modifies heap
@@ -147,7 +147,7 @@ package reorgdetector
 //@   ensures result == nil ==> durHas == upd(old(durHas), cast(src, *headerWithSubscriberID).Num, true) && durHash == upd(old(durHash), cast(src, *headerWithSubscriberID).Num, cast(src, *headerWithSubscriberID).Hash)
 //@   ensures result != nil ==> durHas == old(durHas) && durHash == old(durHash)
 
-//@ func (rd *ReorgDetector) saveTrackedBlock
+//@ func (rd *ReorgDetector) saveTrackedBlock (rd, id, b)
 //@   props C06
 //@   requires rd != nil && rd.trackedBlocks != nil && rd.log != nil
 //@   requires has(rd.trackedBlocks, id) ==> rd.trackedBlocks[id] != nil && rd.trackedBlocks[id].headers != nil
@@ -156,14 +156,14 @@ package reorgdetector
 //@   ensures[success-means-tracked-in-memory-and-in-the-store] result == nil ==> has(rd.trackedBlocks, id) && rd.trackedBlocks[id] != nil && has(rd.trackedBlocks[id].headers, b.Num) && rd.trackedBlocks[id].headers[b.Num].Hash == b.Hash && durHas[b.Num] && durHash[b.Num] == b.Hash
 //@   ensures[memory-stays-within-the-store] has(rd.trackedBlocks, id) ==> forall(n, int, has(rd.trackedBlocks[id].headers, n) ==> durHas[n] && durHash[n] == rd.trackedBlocks[id].headers[n].Hash)
 
-//@ func (hl *headersList) get
+//@ func (hl *headersList) get (hl, num)
 //@   props C06
 //@   requires hl != nil
 //@   modifies nothing
 //@   ensures[the-header-held-for-that-number] result1 == nil ==> result0 != nil && has(hl.headers, num) && *result0 == hl.headers[num]
 //@   ensures[not-held-is-an-error] !has(hl.headers, num) ==> result1 != nil
 
-//@ func (rd *ReorgDetector) AddBlockToTrack
+//@ func (rd *ReorgDetector) AddBlockToTrack (rd, ctx, id, num, hash)
 //@   props C06
 //@   requires rd != nil && rd.trackedBlocks != nil && rd.log != nil
 //@   requires has(rd.trackedBlocks, id) ==> rd.trackedBlocks[id] != nil && rd.trackedBlocks[id].headers != nil
